@@ -23,7 +23,9 @@ SCONF = "MatrixProductState.sample_configuration"
 SAMP = "MatrixProductState.sample"
 CLEC = "MatrixProductState.compute_local_expectation_canonical@where=pair"
 LEC = "MatrixProductState.local_expectation_canonical"
-AUTO = "MatrixProductState.gate_with_auto_swap@info=pair"
+AUTO = "MatrixProductState.gate_with_auto_swap@inplace=True,info=pair,swap_back=False,where=pair"
+AUTO_SB = "MatrixProductState.gate_with_auto_swap@inplace=True,info=pair,swap_back=True,where=pair"
+AUTO_NIP = "MatrixProductState.gate_with_auto_swap@inplace=False,info=pair,swap_back=False,where=pair"
 GSPLIT = "MatrixProductState.gate_split"
 SUBMPO = "MatrixProductState.gate_with_submpo@inplace=True,info=pair,method=direct,where=pair"
 SUBMPO_NIP = "MatrixProductState.gate_with_submpo@inplace=False,info=pair,method=direct,sweep_reverse=absent,where=pair"
@@ -108,9 +110,9 @@ MUTANTS = [
     (T, AUTO, '            final_gate_where = (i, i + 1)\n            absorb = "right"', '            final_gate_where = (i, i + 1)\n            absorb = "left"', "expect-fail"),
     (T, AUTO, '        info["cur_orthog"] = (i + 1, i + 1)\n\n        if need_to_swap and swap_back:', '        info["cur_orthog"] = (i, i)\n\n        if need_to_swap and swap_back:', "expect-fail"),
     (T, AUTO, "        mps.canonicalize_((i, i + 1), info=info)\n\n        # apply gate", "        mps.canonicalize_((i, j), info=info)\n\n        # apply gate", "expect-fail"),
-    (T, AUTO, "            mps.swap_site_to(\n                i + 1, j, info=info, inplace=True, **compress_opts\n            )\n\n        return mps", "            mps.swap_site_to(\n                i + 1, j, inplace=True, **compress_opts\n            )\n\n        return mps", "expect-fail"),
+    (T, AUTO_SB, "            mps.swap_site_to(\n                i + 1, j, info=info, inplace=True, **compress_opts\n            )\n\n        return mps", "            mps.swap_site_to(\n                i + 1, j, inplace=True, **compress_opts\n            )\n\n        return mps", "expect-fail"),
     (T, AUTO, "            mps.swap_site_to(\n                j, i + 1, info=info, inplace=True, **compress_opts\n            )", "            mps.swap_site_to(\n                j, i + 1, info=info, inplace=False, **compress_opts\n            )", "expect-fail"),
-    (T, AUTO, "        mps = self if inplace else self.copy()\n\n        i, j = where\n", "        mps = self\n\n        i, j = where\n", "expect-fail"),
+    (T, AUTO_NIP, "        mps = self if inplace else self.copy()\n\n        i, j = where\n", "        mps = self\n\n        i, j = where\n", "expect-fail"),
     # without info= canonicalize_ recomputes the centre ('calc') and the record is overwritten right after: same behaviour
     (T, AUTO, "        mps.canonicalize_((i, i + 1), info=info)\n\n        # apply gate", "        mps.canonicalize_((i, i + 1))\n\n        # apply gate", "benign"),
     # gate on the wrong sites, but the record written is still true for the state produced (C06 matter, not C08)
@@ -199,7 +201,6 @@ MUTANTS = [
     # invariant needs (how many gates may pile up before a compression is a policy)
     (C, LAG, "        for site in range(min_site, max_site + 1):\n            self._uncompressed_sites[site] = (", "        for site in range(min_site, max_site):\n            self._uncompressed_sites[site] = (", "benign"),
     (C, LAG, "        for site in range(min_site, max_site + 1):\n            self._uncompressed_sites[site] = (", "        for site in range(min_site, min_site):\n            self._uncompressed_sites[site] = (", "expect-fail"),
-    (C, LAG, '            gate, tags=tags, contract="nonlocal", method="lazy", **gate_opts\n', '            gate, tags=tags, contract="nonlocal", method="lazy", info={}, **gate_opts\n', "benign"),
     # compressing earlier or later is a policy: the invariant holds either way
     (C, LAG, "                self._compress()\n                break", "                break", "benign"),
     (C, LLE, "    def local_expectation(self, G, where, *args, **kwargs):\n        self._compress()\n        return super().local_expectation", "    def local_expectation(self, G, where, *args, **kwargs):\n        return super().local_expectation", "expect-fail"),
@@ -251,7 +252,7 @@ def run_mutant(tmp, relpath, suffix, old, new):
         return "stale", f"no contract registered for {suffix}"
     con = cons[0]
     all_cases = con.cases()
-    orig_discharge, orig_cases, orig_floor = pyvc.discharge, con.cases, con.floor
+    orig_discharge, orig_cases, orig_floor, orig_inputs = pyvc.discharge, con.cases, con.floor, con.inputs
 
     def norm(rep):
         # (case, label) with line numbers and the path signature removed: a mutant is caught only by a clause that
@@ -261,6 +262,16 @@ def run_mutant(tmp, relpath, suffix, old, new):
     try:
         con.cases = lambda: [c for c in all_cases if all(s in c.name for s in sel.split(",") if s)]
         con.floor = 1  # (the vacuity floor is for the full case list)
+        if SMALL_L:
+            # chains of at most SMALL_L sites: a counterexample found under this EXTRA assumption is a counterexample
+            # of the unrestricted obligation as well; it only makes the solver's model search (quantified) quicker
+            def small_inputs(cx, case, _orig=orig_inputs):
+                d = _orig(cx, case)
+                for f in cx.heap.values():
+                    if "isL" in f and not isinstance(f.get("L"), int):
+                        cx.assume(f["L"] <= SMALL_L)
+                return d
+            con.inputs = small_inputs
         pyvc.discharge = lambda ob, **kw: orig_discharge(ob, timeout_ms=3000, portfolio=False)
         key = (suffix, sel)
         if key not in _BASE:
@@ -278,12 +289,18 @@ def run_mutant(tmp, relpath, suffix, old, new):
     finally:
         pyvc.REPO = "/repo"
         pyvc._SRC_CACHE.clear()
-        pyvc.discharge, con.cases, con.floor = orig_discharge, orig_cases, orig_floor
+        pyvc.discharge, con.cases, con.floor, con.inputs = orig_discharge, orig_cases, orig_floor, orig_inputs
         for other in FILES:
             try:
                 os.remove(os.path.join(tmp, other))
             except OSError:
                 pass
+    if not (norm(rep) - _BASE[key]) and rep.status == "ok" and rep.unknown:
+        # nothing decided as failed within the short timeout: give a few undecided obligations the full portfolio
+        for ob in rep.unknown[:6]:
+            orig_discharge(ob, timeout_ms=15000)
+            if ob.status == "failed":
+                break
     extra = norm(rep) - _BASE[key]
     if extra:
         return "failed", ", ".join(sorted({o.split("::")[-1].split("#")[0] for o in extra})[:3])
@@ -295,3 +312,4 @@ def run_mutant(tmp, relpath, suffix, old, new):
 
 
 _BASE = {}
+SMALL_L = int(os.environ.get("VERIF_MUTANT_SMALL_L", "6"))
